@@ -358,10 +358,12 @@ func (ctx *Context) makeDetailStr(details []BufferSpan) string {
 	}
 
 	detailStr := string(detailResult)
-	if detailStr == ctx.Ret.ToString() {
-		detailStr = "" // 如果detail和结果值完全一致，那么将其置空
+	trimmed := strings.TrimSpace(detailStr)
+	if retText := ctx.Ret.ToString(); detailStr == retText || trimmed == retText {
+		// 如果detail和结果值完全一致，那么将其置空(已匹配文本末尾的空白不算差异，否则 "x 理由" 与 "x" 的过程不同)
+		return ""
 	}
-	return strings.TrimSpace(detailStr)
+	return trimmed
 }
 
 func (ctx *Context) evaluate() {
